@@ -327,7 +327,7 @@ Lemma lbc_leg_ok a na b nb u v nd :
   pair_ok a na b nb -> lbc_nodes a na b nb = Some (u, v) ->
   (In b (children na) -> parent nd = parent na /\ children nd = remove_first b (children na) ++ children nb) ->
   (In a (children nb) -> parent nd = parent nb /\ children nd = children na ++ remove_first a (children nb)) ->
-  leg_ok nd u /\ leg_ok nd v.
+  leg_ok nd u /\ leg_ok nd v /\ nvirt nd = nvirt na + nvirt nb - 2.
 Proof.
   intros Hok Hl HA HB. destruct (lbc_names _ _ _ _ _ _ Hok Hl) as (Hou & Hov & Hcase).
   destruct Hcase as [(Hin & Hup & Huc & Hur & Hvp & Hvc & Hvr)|(Hin & Hup & Huc & Hur & Hvp & Hvc & Hvr)].
@@ -335,7 +335,8 @@ Proof.
     assert (Hpb : parent nb = Some a) by (destruct (po_adj _ _ _ _ Hok) as [(_ & ? & _)|(_ & _ & ? & _)]; [assumption|contradiction]).
     assert (Hnv : nvirt nd = nvirt na + nvirt nb - 2).
     { unfold nvirt, nparents. rewrite Hp, Hc, Hpb, app_length. pose proof (TrotterProofs.remove_first_length _ _ Hin). nlia. }
-    unfold leg_ok. rewrite Hup, Huc, Hur, Hvp, Hvc, Hvr, Hou, Hov, Hp, Hc, Hnv. repeat split; try discriminate; auto.
+    split; [|split; [|exact Hnv]];
+    unfold leg_ok; rewrite ?Hup, ?Huc, ?Hur, ?Hvp, ?Hvc, ?Hvr, ?Hou, ?Hov, ?Hp, ?Hc, ?Hnv; repeat split; try discriminate; auto.
     + intros Hr. apply is_root_spec. exact Hr.
     + apply incl_appl. apply incl_refl.
     + intros l Hl'. apply in_seq in Hl'. lia.
@@ -346,7 +347,8 @@ Proof.
     { destruct (po_adj _ _ _ _ Hok) as [(_ & _ & Hy & _)|(_ & ? & _)]; [contradiction|assumption]. }
     assert (Hnv : nvirt nd = nvirt na + nvirt nb - 2).
     { unfold nvirt, nparents. rewrite Hp, Hc, Hpa, app_length. pose proof (TrotterProofs.remove_first_length _ _ Hin). nlia. }
-    unfold leg_ok. rewrite Hup, Huc, Hur, Hvp, Hvc, Hvr, Hou, Hov, Hp, Hc, Hnv. repeat split; try discriminate; auto.
+    split; [|split; [|exact Hnv]];
+    unfold leg_ok; rewrite ?Hup, ?Huc, ?Hur, ?Hvp, ?Hvc, ?Hvr, ?Hou, ?Hov, ?Hp, ?Hc, ?Hnv; repeat split; try discriminate; auto.
     + apply incl_appl. apply incl_refl.
     + intros l Hl'. apply in_seq in Hl'. lia.
     + intros Hr. apply is_root_spec. exact Hr.
@@ -368,6 +370,7 @@ Record gate_chain (contr : id) (s : store) (a b : id) (g : tgate) (s1 s2 s3 : st
   gc_wf1 : wf s1;
   gc_wf2 : wf s2;
   gc_spec : spec_ok s2 contr u v;
+  gc_nv : forall nd, aget contr (nodes s2) = Some nd -> nvirt nd = nvirt na + nvirt nb - 2;
   gc_ids : ids_ok s2 contr a b;
   gc_wf3 : wf s3
 }.
@@ -406,7 +409,7 @@ Proof.
   destruct (absorb_open_inv _ _ _ _ Hab) as (s1a & nd & t & Hacc & _ & _ & _ & En2 & _).
   destruct (access_result _ _ _ _ _ Hacc) as (B1 & _ & _ & B4 & _ & _ & _ & B8 & (nd0 & B9 & B10 & B11)).
   rewrite V2 in B9. injection B9 as <-.
-  assert (Hspec : spec_ok t2 contr u v).
+  assert (Hspec0 : forall ndx, aget contr (nodes t2) = Some ndx -> leg_ok ndx u /\ leg_ok ndx v /\ nvirt ndx = nvirt na + nvirt nb - 2).
   { intros ndx Ex. rewrite En2, B1 in Ex. injection Ex as <-.
     apply (lbc_leg_ok a na b nb u v nd Hok Hl).
     - intros Hin. rewrite B10, B11, Hnp, Hnc.
@@ -420,6 +423,8 @@ Proof.
         destruct (po_adj _ _ _ _ Hok) as [(_ & _ & Hx & _)|(_ & _ & _ & Hx)]; contradiction.
       + rewrite Eb in Ep0. injection Ep0 as <-. rewrite Ea in Ec0. injection Ec0 as <-.
         destruct (Nat.eqb_spec b a) as [E|_]; [congruence|]. auto. }
+  assert (Hspec : spec_ok t2 contr u v) by (intros ndx Ex; destruct (Hspec0 ndx Ex) as (? & ? & _); auto).
+  assert (Hnv : forall ndx, aget contr (nodes t2) = Some ndx -> nvirt ndx = nvirt na + nvirt nb - 2) by (intros ndx Ex; apply (Hspec0 ndx Ex)).
   assert (Hids : ids_ok t2 contr a b).
   { unfold ids_ok. rewrite En2, B8. split; right; apply aget_None.
     - destruct Fpc as [[-> ->]|[-> ->]]; [apply V3|apply V4]; congruence.
@@ -442,7 +447,7 @@ Lemma gate_oriented contr s a b g s1 s2 s3 na nb u v :
       access s2 contr = Some (s2a, nd2, t2) /\ wf s2a /\
       split_view s2a s3 contr nd2 t2 p c su sl cU cL nU nL tU tL bd.
 Proof.
-  intros W Ea G. destruct G as [Eb Hok Hca Hcb Hnew Hl Hcn Hab Hs W1 W2 Hspec Hids W3].
+  intros W Ea G. destruct G as [Eb Hok Hca Hcb Hnew Hl Hcn Hab Hs W1 W2 Hspec Hnv Hids W3].
   destruct (lbc_names _ _ _ _ _ _ Hok Hl) as (_ & _ & Hcase).
   destruct (split_view_of _ _ _ _ _ _ _ _ _ _ W2 Hs Hspec Hids)
     as (s2a & nd2 & t2 & ol & il & on2 & in2 & cO & cI & bd & Hacc & W2a & _ & _ & _ & _ & _ & _ & _ & _ & V).
@@ -501,7 +506,7 @@ Proof.
   destruct (two_site_chain _ _ _ _ _ _ _ _ _ W Ea Hc H) as (nb & u & v & G).
   destruct (gate_oriented _ _ _ _ _ _ _ _ _ _ _ _ W Ea G) as (p & c & pn0 & cn0 & su & sl & Hor & Ep0 & Ec0 & Hparc & Hcin & Hppc & Hpc &
      Hsup & Hsuc & Hslp & Hslc & s2a & nd2 & t2 & cU & cL & nU & nL & tU & tL & bd & Hacc2 & W2a & V).
-  pose proof G as G'. destruct G' as [Eb Hok Hca Hcb Hnew Hl Hcn Hab Hs W1 W2 Hspec Hids W3].
+  pose proof G as G'. destruct G' as [Eb Hok Hca Hcb Hnew Hl Hcn Hab Hs W1 W2 Hspec Hnv Hids W3].
   assert (Hnew' : contr = a \/ contr = b \/ ~ In contr (akeys (nodes s))) by tauto.
   destruct (contract_inv2 _ _ _ _ _ W Hcn Hnew') as (p' & c' & s2c & pn & cn & nn & ax & nt & F & Hoth & (pn0' & cn0' & Ep0' & Ec0' & -> & ->) & _ & _ & _ & _ & _ & _ & _ & Hroot2c).
   destruct F as [Fpc Fab Fwf2 Fp Fc Fpar Fpp Fpc' Fax Ftd Fnn Fkeys Flax Fatoms Fends Ftkeys Fview].
@@ -680,5 +685,148 @@ Proof.
     destruct (tebd_step_preserves_wfb _ _ _ _ W Hc E) as (W1 & Hc1 & St1 & Hr1).
     destruct (IH s1 s' W1 Hc1 H) as (W' & Hc' & St' & Hr').
     split; [exact W'|]. split; [exact Hc'|]. split; [eapply same_tree_trans; eauto|congruence].
+Qed.
+
+(* ---- A2: the diagram the gate folds into the network ------------------------------------------------ *)
+Lemma find_leg_values_ext n n' sp : parent n = parent n' -> children n = children n' ->
+  find_leg_values n sp = find_leg_values n' sp.
+Proof.
+  intros Hp Hc. unfold find_leg_values. erewrite map_ext; [reflexivity|]. intros x. apply neighbour_index_ext; assumption.
+Qed.
+
+Lemma nlegs_reset n : nlegs (reset_permutation n) = nlegs n.
+Proof. unfold nlegs. cbn. apply seq_length. Qed.
+Lemma nvirt_reset n : nvirt (reset_permutation n) = nvirt n.
+Proof. reflexivity. Qed.
+Lemma nopen_reset n : nopen (reset_permutation n) = nopen n.
+Proof. unfold nopen. rewrite nlegs_reset, nvirt_reset. reflexivity. Qed.
+
+(* the tensor the SVD kernel receives: the contraction of the two old tensors (in the order
+   _create_contracted_node gives the legs), the gate atom [ga] with its inputs on the old open wires
+   (now summed) and its fresh output wires in their place *)
+Definition gate_folded (nn : node) (nt : sarr) (ga : nat) (outw : list wire) : sarr :=
+  {| axes := firstn (nvirt nn) (laxes nn nt) ++ outw;
+     atoms := atoms nt ++ [ga];
+     bnd := skipn (nvirt nn) (laxes nn nt) ++ bnd nt |}.
+
+Theorem two_site_gate_diagram_wf contr s a b g s1 s2 s3 na :
+  wf s -> aget a (nodes s) = Some na -> aget contr (nodes s) = None ->
+  two_site_stages contr s a b g = Some (s1, s2, s3) ->
+  exists nb u v p c pn0 cn0 pt ct ax nt nn lu lv,
+    aget b (nodes s) = Some nb /\ lbc_nodes a na b nb = Some (u, v) /\
+    ((p = a /\ c = b) \/ (p = b /\ c = a)) /\
+    aget p (nodes s) = Some pn0 /\ aget c (nodes s) = Some cn0 /\ parent cn0 = Some p /\
+    (* the two old tensors and their contraction over the bond *)
+    logical s p = Some pt /\ logical s c = Some ct /\ neighbour_index pn0 c = Some ax /\
+    s_tensordot pt ct ax 0 = Some nt /\
+    (* the contracted node and the legs the two recorded specifications name *)
+    aget contr (nodes s1) = Some nn /\ aget contr (tensors s1) = Some nt /\
+    find_leg_values nn u = Some lu /\ find_leg_values nn v = Some lv /\
+    Permutation (lu ++ lv) (seq 0 (nlegs nn)) /\
+    let ga := next_atom s in
+    let opa := open_of na (tens s a) in
+    let opb := open_of nb (tens s b) in
+    let outw := seq (next_wire s) (nopen na + nopen nb) in
+    let bw := next_wire s + (nopen na + nopen nb) in
+    let G := gate_folded nn nt ga outw in
+    (* the open wires of the contracted node are the old open wires of node1 then node2 *)
+    skipn (nvirt nn) (laxes nn nt) = opa ++ opb /\
+    (* the gate atom: outputs on fresh wires, inputs on the old open wires; then the two SVD factors *)
+    atab s3 = atab s ++ [(ga, outw ++ opa ++ opb); (S ga, permute 0 lu (axes G) ++ [bw]); (S (S ga), bw :: permute 0 lv (axes G))] /\
+    defs s3 = defs s ++ [{| kq := S ga; kr := S (S ga); kbond := bw; kinput := s_transpose (lu ++ lv) G;
+                            kkind := t_kind g; kmode := match t_kind g with 0 => Some Reduced | _ => None end |}] /\
+    aget a (tensors s3) = Some {| axes := permute 0 lu (axes G) ++ [bw]; atoms := [S ga]; bnd := [] |} /\
+    aget b (tensors s3) = Some {| axes := bw :: permute 0 lv (axes G); atoms := [S (S ga)]; bnd := [] |} /\
+    next_atom s3 = S (S (S ga)) /\ next_wire s3 = S bw /\
+    (* the gate's output wires take the places of the open legs: node1's first, in order *)
+    exists na' nb', aget a (nodes s3) = Some na' /\ aget b (nodes s3) = Some nb' /\
+      open_of na' (tens s3 a) = seq (next_wire s) (nopen na) /\
+      open_of nb' (tens s3 b) = seq (next_wire s + nopen na) (nopen nb).
+Proof.
+  intros W Ea Hc H.
+  destruct (two_site_chain _ _ _ _ _ _ _ _ _ W Ea Hc H) as (nb & u & v & G).
+  destruct G as [Eb Hok Hca Hcb Hnew Hl Hcn Hab Hs W1 W2 Hspec Hnv Hids W3].
+  assert (Hnew' : contr = a \/ contr = b \/ ~ In contr (akeys (nodes s))) by tauto.
+  destruct (contract_inv2 _ _ _ _ _ W Hcn Hnew')
+    as (p & c & s2c & pn & cn & nn & ax & nt & F & Hoth & (pn0 & cn0 & Ep0 & Ec0 & -> & ->) & Lp & Lc & Na1 & Nd1 & Nt1 & Ndm1 & Nw1 & _).
+  destruct F as [Fpc Fab Fwf2 Fp Fc Fpar Fpp Fpc' Fax Ftd Fnn Fkeys Flax Fatoms Fends Ftkeys Fview].
+  destruct Fview as (V1 & V2 & V3 & V4 & V5 & V6 & V7 & V8 & V9).
+  rewrite reset_parent in Fpar.
+  assert (Hcp : contr <> p /\ contr <> c) by (destruct Fpc as [[-> ->]|[-> ->]]; auto). destruct Hcp as [Hcp Hcc].
+  (* the tensor of the contracted node *)
+  assert (Tc : aget contr (tensors s1) = Some nt).
+  { rewrite V7. rewrite contract_tensors_aget; [rewrite Nat.eqb_refl; reflexivity|apply (wf_tnd s2c Fwf2)|].
+    rewrite !aget_adel_other by assumption. destruct (aget contr (tensors s2c)) eqn:E; [|reflexivity]. exfalso.
+    apply aget_Some_keys in E. rewrite Ftkeys in E. apply Hnew. apply (wf_keys_iff s contr W). exact E. }
+  assert (Tc' : tens s1 contr = nt) by (apply tens_aget; exact Tc).
+  destruct (contract_open_rule _ _ _ _ _ na nb W Hcn Hnew' Ea Eb) as (nn' & Enn' & Hopen & _).
+  rewrite V2 in Enn'. injection Enn' as <-. rewrite Tc' in Hopen.
+  (* absorb *)
+  destruct (absorb_open_inv _ _ _ _ Hab) as (s1a & nd1 & t1 & Hacc1 & _ & _ & _ & En2 & Er2 & Et2 & Ed2 & Ew2 & Ea2 & Edf2 & Eat2).
+  destruct (access_inv _ _ _ _ _ Hacc1) as (nn1 & nt1 & X1 & X2 & X3 & X4 & X5).
+  rewrite V2 in X1. injection X1 as <-. rewrite Tc in X2. injection X2 as <-.
+  destruct (sp_access_next _ _ _ _ _ Hacc1) as (Na1a & Nw1a & Nd1a & Ndm1a & Nt1a).
+  assert (Hnopen : nopen nn = nopen na + nopen nb).
+  { rewrite <- (open_of_length nn nt), Hopen, app_length, !open_of_length. reflexivity. }
+  assert (Hg : ab_tensor s1a nd1 t1 = gate_folded nn nt (next_atom s) (seq (next_wire s) (nopen na + nopen nb))).
+  { unfold ab_tensor, gate_folded. rewrite X3, X4, nvirt_reset, nopen_reset, Hnopen, Na1a, Nw1a, Na1, Nw1. reflexivity. }
+  rewrite Hg in Et2. set (GG := gate_folded nn nt (next_atom s) (seq (next_wire s) (nopen na + nopen nb))) in *.
+  pose proof (ni_virt _ _ _ (wf_node s1 W1 contr nn V2)) as Hvn.
+  assert (Hlen : length (axes GG) = nlegs nn).
+  { unfold GG, gate_folded. cbn [axes]. rewrite app_length, firstn_length, laxes_length, seq_length.
+    rewrite <- Hnopen. unfold nopen. nlia. }
+  (* split *)
+  destruct (split_new_def _ _ _ _ _ _ _ _ _ _ {| kq := 0; kr := 0; kbond := 0; kinput := empty_sarr; kkind := 0; kmode := None |} W2 Hs)
+    as (s2a & nd2 & t2 & ol & il & bd & Hacc2 & Hlog2 & Eol & Eil & Hperm & _ & Hlast & Hdefs & Toid & Tiid & Nw3 & Na3 & _).
+  destruct (split_view_of _ _ _ _ _ _ _ _ _ _ W2 Hs Hspec Hids)
+    as (s2a' & nd2' & t2' & ol' & il' & on2 & in2 & cO & cI & bd' & Hacc2' & _ & Eol' & Eil' & _ & _ & _ & _ & _ & Hatab & _).
+  rewrite Hacc2 in Hacc2'. injection Hacc2' as <- <- <-. rewrite Eol in Eol'. injection Eol' as <-. rewrite Eil in Eil'. injection Eil' as <-.
+  destruct (access_inv _ _ _ _ _ Hacc2) as (ndx & tx & Y1 & Y2 & Y3 & Y4 & Y5).
+  assert (Endx : ndx = nd1).
+  { rewrite En2 in Y1. rewrite X5 in Y1. cbn in Y1. rewrite aget_aset_same in Y1. congruence. }
+  rewrite Et2, aget_aset_same in Y2. injection Y2 as <-. subst ndx.
+  assert (Ht2 : t2 = GG).
+  { rewrite Y4, X3. cbn [perm reset_permutation]. fold (nlegs nn). rewrite <- Hlen. apply s_transpose_seq. }
+  rewrite Ht2 in Hperm, Hlast, Toid, Tiid, Hatab.
+  assert (Hflv : forall sp, find_leg_values nd2 sp = find_leg_values nn sp).
+  { intros sp. apply find_leg_values_ext; rewrite Y3, X3; reflexivity. }
+  rewrite Hflv in Eol, Eil.
+  assert (Hnext : next_atom s2 = S (next_atom s) /\ next_wire s2 = next_wire s + (nopen na + nopen nb)).
+  { rewrite Ea2, Ew2, Na1a, Nw1a, Na1, Nw1, X3, nopen_reset, Hnopen. auto. }
+  destruct Hnext as [NA2 NW2].
+  exists nb, u, v, p, c, pn0, cn0, (tens s2c p), (tens s2c c), ax, nt, nn, ol, il.
+  split; [exact Eb|]. split; [exact Hl|]. split; [exact Fpc|]. split; [exact Ep0|]. split; [exact Ec0|]. split; [exact Fpar|].
+  split; [exact Lp|]. split; [exact Lc|].
+  split; [rewrite <- Fax; apply neighbour_index_ext; reflexivity|].
+  split; [exact Ftd|]. split; [exact V2|]. split; [exact Tc|]. split; [exact Eol|]. split; [exact Eil|].
+  split; [rewrite <- Hlen; exact Hperm|].
+  cbv zeta. fold GG.
+  split; [exact Hopen|].
+  split.
+  { rewrite Hatab, Eat2, Nt1a, Nt1, NA2, NW2, Na1a, Nw1a, Na1, Nw1, X3, X4, nopen_reset, nvirt_reset, Hnopen.
+    change (axes (s_transpose (perm nn) nt)) with (laxes nn nt).
+    change (open_of nn nt) with (skipn (nvirt nn) (laxes nn nt)) in Hopen. rewrite Hopen, <- !app_assoc. reflexivity. }
+  split.
+  { rewrite Hdefs, Hlast, Edf2, Nd1a, Nd1, NA2, NW2. reflexivity. }
+  split; [rewrite Toid, NA2, NW2; reflexivity|].
+  split; [rewrite Tiid, NA2, NW2; reflexivity|].
+  split; [rewrite Na3, NA2; reflexivity|]. split; [rewrite Nw3, NW2; reflexivity|].
+  assert (End1 : aget contr (nodes s2) = Some nd1) by (rewrite En2, X5; cbn; apply aget_aset_same).
+  destruct (split_open_legs _ _ _ _ _ _ _ _ _ _ nd1 W2 Hs Hspec Hids End1) as (no & ni & Eno & Eni & Ho & Hi & _).
+  exists no, ni. split; [exact Eno|]. split; [exact Eni|].
+  assert (Hlax : lax s2 contr nd1 = axes GG).
+  { unfold lax, laxes. rewrite (tens_aget _ _ _ (eq_trans (f_equal (aget contr) Et2) (aget_aset_same _ _ _))).
+    rewrite X3. cbn [perm reset_permutation]. fold (nlegs nn). rewrite <- Hlen. apply permute_seq. }
+  pose proof (Hnv nd1 End1) as Hnv1. rewrite X3, nvirt_reset in Hnv1.
+  destruct (lbc_names _ _ _ _ _ _ Hok Hl) as (Hou & Hov & _).
+  assert (Hvw : length (firstn (nvirt nn) (laxes nn nt)) = nvirt na + nvirt nb - 2).
+  { rewrite firstn_length, laxes_length. nlia. }
+  assert (E1 : forall x bb : list wire, map (fun l => nth l (x ++ bb) 0) (seq (length x) (length bb)) = bb).
+  { intros x bb. pose proof (map_nth_seq_mid 0 x bb []) as Q. rewrite app_nil_r in Q. exact Q. }
+  rewrite Ho, Hi, Hlax, Hou, Hov. unfold GG, gate_folded. cbn [axes]. rewrite seq_app. split.
+  - pose proof (map_nth_seq_mid 0 (firstn (nvirt nn) (laxes nn nt)) (seq (next_wire s) (nopen na)) (seq (next_wire s + nopen na) (nopen nb))) as Q.
+    unfold wire in *. rewrite Hvw, seq_length in Q. exact Q.
+  - pose proof (E1 (firstn (nvirt nn) (laxes nn nt) ++ seq (next_wire s) (nopen na)) (seq (next_wire s + nopen na) (nopen nb))) as Q.
+    unfold wire in *. rewrite app_length, Hvw, !seq_length, <- app_assoc in Q. exact Q.
 Qed.
 
